@@ -24,6 +24,7 @@ import (
 	"verifharness/internal/ev"
 	"verifharness/internal/gen"
 	"verifharness/internal/mpcl"
+	"verifharness/internal/ref"
 	"verifharness/internal/xport"
 )
 
@@ -138,6 +139,7 @@ func judge(cs Case, rep Reply) ev.Outcome {
 	if len(cs.S.FragsGE)+len(cs.S.FragsEG) > 0 {
 		classes = append(classes, "fragmented")
 	}
+	classes = append(classes, shapeClasses(rep, dir)...)
 	nontrivial := rep.Hits > 0
 
 	var outcome string
@@ -188,6 +190,33 @@ func judge(cs Case, rep Reply) ev.Outcome {
 		cs.C.Dir, cs.C.Off, cs.C.Mask)
 	out.Sample = describe(cs, rep)
 	return out
+}
+
+// shapeClasses: widths beyond one machine word and, for a corruption inside a
+// label list, whether the label's index is >= 64 (for a returned output label
+// also the true value of that result bit).
+func shapeClasses(rep Reply, dir string) []string {
+	var cl []string
+	if rep.NOut > 64 {
+		cl = append(cl, "wide/result-bits>64")
+		if strings.Contains(rep.WantBits[64:], "1") {
+			cl = append(cl, "wide/reference-has-1-bits-at-index>=64")
+		}
+	}
+	if rep.NX > 64 {
+		cl = append(cl, "wide/garbler-input>64")
+	}
+	if rep.NY > 64 {
+		cl = append(cl, "wide/evaluator-input>64")
+	}
+	if rep.LabelIdx >= 64 {
+		c := "wide/" + dir + "/" + rep.Kind + "-index>=64"
+		cl = append(cl, c)
+		if rep.Kind == "output-labels" && rep.LabelIdx < len(rep.WantBits) {
+			cl = append(cl, c+"/true-bit="+rep.WantBits[rep.LabelIdx:rep.LabelIdx+1])
+		}
+	}
+	return cl
 }
 
 func run(cs Case) ev.Outcome {
@@ -255,6 +284,64 @@ func drawFrags(t *rapid.T, label string) []int {
 var genOpts = mpcl.Opts{NumParams: 2, MaxStmts: 3, MaxDepth: 2, MaxWidth: 5,
 	NoDiv: true, ScalarParams: true}
 
+// genOptsWide: integer widths up to 130 bits (about half of the programs have
+// more than 64 result bits).
+var genOptsWide = mpcl.Opts{NumParams: 2, MaxStmts: 3, MaxDepth: 2,
+	NoDiv: true, ScalarParams: true}
+
+var gateOps = []int{ref.XOR, ref.XNOR, ref.AND, ref.OR, ref.INV}
+
+// drawWideCirc draws a hand-made circuit with more than 64 result bits in one
+// to three results (among them the shapes 70+9, 64+k, k+64, exactly 65) and
+// inputs of a few bits or of 65..100 bits.
+func drawWideCirc(t *rapid.T) gen.Circ {
+	width := func(label string) int {
+		if uni(t, 3, label+"_wide") == 0 {
+			return 65 + uni(t, 36, label)
+		}
+		return 1 + uni(t, 8, label)
+	}
+	c := gen.Circ{In: []int{width("nx"), width("ny")}}
+	switch uni(t, 7, "outshape") {
+	case 0:
+		c.Out = []int{65 + uni(t, 40, "outw")}
+	case 1:
+		c.Out = []int{70, 9}
+	case 2:
+		c.Out = []int{1 + uni(t, 63, "outw"), 64}
+	case 3:
+		c.Out = []int{64, 1 + uni(t, 20, "outw")}
+	case 4:
+		c.Out = []int{33 + uni(t, 20, "outw"), 33 + uni(t, 20, "outw"), 1 + uni(t, 8, "outw")}
+	case 5:
+		c.Out = []int{65}
+	default:
+		c.Out = []int{128}
+	}
+	nin, nout := c.NumIn(), c.NumOut()
+	ngates := nout + uni(t, 40, "nmid")
+	for i := 0; i < ngates; i++ {
+		defined := nin + i
+		op := gateOps[rapid.IntRange(0, len(gateOps)-1).Draw(t, "op")]
+		pick := func(label string) int {
+			// Recent wires (depth), inputs (fan-out), anything.
+			switch rapid.IntRange(0, 2).Draw(t, label+"_mode") {
+			case 0:
+				return defined - 1 - rapid.IntRange(0, min(defined-1, 7)).Draw(t, label+"_back")
+			case 1:
+				return rapid.IntRange(0, nin-1).Draw(t, label+"_in")
+			}
+			return rapid.IntRange(0, defined-1).Draw(t, label)
+		}
+		in0, in1 := pick("a"), 0
+		if op != ref.INV {
+			in1 = pick("b")
+		}
+		c.Gates = append(c.Gates, ref.Gate{op, in0, in1, nin + i})
+	}
+	return c
+}
+
 func genSession(t *rapid.T) Session {
 	var s Session
 	if uni(t, 100, "mode") < 55 {
@@ -264,7 +351,21 @@ func genSession(t *rapid.T) Session {
 	}
 	var nx, ny int
 	src := uni(t, 100, "source")
+	wide := uni(t, 100, "wide") < 22
 	switch {
+	case wide && s.Mode == "circ" && src < 40:
+		c := drawWideCirc(t)
+		s.Circ = &c
+		nx, ny = c.In[0], c.In[1]
+	case wide && src < 80:
+		s.Prog = wideProgNames[uni(t, len(wideProgNames), "wideprog")]
+		fp := fixedByName(s.Prog)
+		nx, ny = fp.XT.Bits, fp.YT.Bits
+	case wide:
+		p := mpcl.Draw(t, genOptsWide)
+		s.Gen = p
+		main := p.Main()
+		nx, ny = p.Bits(main.Params[0].T), p.Bits(main.Params[1].T)
 	case s.Mode == "circ" && src < 70:
 		o := gen.CircOpts{MinArgs: 2, MaxArgs: 2, MaxWidth: 6, MaxGates: 24,
 			MaxOuts: 3, MaxOutWidth: 3}
@@ -329,20 +430,63 @@ func kindsOf(lay []Seg, dir int) []string {
 	return r
 }
 
-func genCase(t *rapid.T) Case {
-	s := genSession(t)
+// drawCorruption draws one corruption of a session whose honest layout is
+// rep (err != nil or rep.Skip != "": no layout, any offset of a short
+// transcript).  focus: "" = direction drawn, message kind uniform (80%) or any
+// offset incl. slightly beyond the end (20%); "outlabel" = a byte of a
+// returned output label (evaluator -> garbler) at a uniformly drawn label
+// index; "late" = the garbler's final result message or beyond the end of the
+// garbler -> evaluator transcript (nothing the garbler's result depends on).
+func drawCorruption(t *rapid.T, rep Reply, err error, focus string) Corruption {
 	var c Corruption
 	if uni(t, 10, "dir") < 6 {
 		c.Dir = 0
 	} else {
 		c.Dir = 1
 	}
-	// The honest run of the same seeds gives the transcript lengths and the
-	// message-kind map, so that offsets can be stratified by kind.
-	rep, err := getPool().do(Request{S: s})
+	usable := err == nil && rep.Skip == ""
 	var segs []Seg
 	total := 600
-	if err == nil && rep.Skip == "" {
+	switch {
+	case usable && focus == "outlabel":
+		c.Dir = 1
+		for _, sg := range rep.Layout {
+			if sg.Dir == 1 && sg.Kind == "output-labels" {
+				segs = append(segs, sg)
+			}
+		}
+		if len(segs) > 0 {
+			sg := segs[0]
+			nl := (sg.End - sg.Start) / 16
+			idx := uni(t, nl, "label")
+			if nl > 64 && uni(t, 3, "highlabel") == 0 {
+				idx = 64 + uni(t, nl-64, "label")
+			}
+			pos := 0
+			switch uni(t, 4, "labelbyte") {
+			case 0:
+			case 1:
+				pos = 15
+			default:
+				pos = uni(t, 16, "labelpos")
+			}
+			c.Off = sg.Start + 16*idx + pos
+			c.Mask = drawMask(t)
+			return c
+		}
+	case usable && focus == "late":
+		c.Dir = 0
+		if uni(t, 3, "beyond") == 0 {
+			c.Off = rep.Lens[0] + uni(t, 8, "offset")
+			c.Mask = drawMask(t)
+			return c
+		}
+		for _, sg := range rep.Layout {
+			if sg.Dir == 0 && sg.Kind == "result" {
+				segs = append(segs, sg)
+			}
+		}
+	case usable:
 		total = rep.Lens[c.Dir]
 		kinds := kindsOf(rep.Layout, c.Dir)
 		if len(kinds) > 0 && uni(t, 10, "stratified") < 8 {
@@ -376,7 +520,20 @@ func genCase(t *rapid.T) Case {
 		c.Off = uni(t, total+total/50+1, "offset")
 	}
 	c.Mask = drawMask(t)
-	return Case{S: s, C: c}
+	return c
+}
+
+func genCase(t *rapid.T) Case {
+	s := genSession(t)
+	// The honest run of the same seeds gives the transcript lengths and the
+	// message-kind map, so that offsets can be stratified by kind.
+	rep, err := getPool().do(Request{S: s})
+	focus := ""
+	if uni(t, 10, "focus") == 0 {
+		// The mechanism the property names first: a returned output label.
+		focus = "outlabel"
+	}
+	return Case{S: s, C: drawCorruption(t, rep, err, focus)}
 }
 
 func init() {
@@ -470,13 +627,21 @@ func TestEnumerate(t *testing.T) {
 		if rep.LayoutErr != "" {
 			t.Errorf("enumerated session %d: message-kind map failed: %s", si, rep.LayoutErr)
 		}
+		wide := isWideSession(s)
+		if wide {
+			// A wide session must exercise result / label / OT wire indices
+			// beyond one machine word with both bit values.
+			if err := checkWide(s, rep); err != nil {
+				t.Errorf("enumerated session %d (%s %s%s): %v", si, s.Mode, s.Prog, circName(s), err)
+			}
+		}
 		if shard == 0 {
 			col.Note("enumerated session %d (%s %s%s x=%s y=%s): honest transcripts g2e=%d e2g=%d bytes",
 				si, s.Mode, s.Prog, circName(s), s.X, s.Y, rep.Lens[0], rep.Lens[1])
 		}
 		for dir := 0; dir < 2; dir++ {
 			n := rep.Lens[dir]
-			if n > maxLen {
+			if n > maxLen && !wide {
 				col.Note("enumerated session %d: direction %s has %d bytes, only the first %d are enumerated",
 					si, dirName[dir], n, maxLen)
 				n = maxLen
@@ -499,6 +664,10 @@ func TestEnumerate(t *testing.T) {
 				kind := kindAt(rep.Layout, dir, off)
 				masks := enumMasks(s, dir, off)
 				run := map[string]bool{} // masks the quick tier always runs
+				st := segStart(rep.Layout, dir, off)
+				if wide {
+					masks = wideMasks(masks, kind, dir, off, st, s.Seed)
+				}
 				// The evaluator's argument description of the array / struct /
 				// slice sessions is small and decides what the evaluator feeds in.
 				if (s.Prog == "arrarg" || s.Prog == "structarg" || s.Prog == "slicearg") &&
@@ -524,15 +693,18 @@ func TestEnumerate(t *testing.T) {
 				}
 				// Labels: the select (point-and-permute) bit = top bit of a
 				// label's first byte, and the lowest bit of its last byte.
-				if labelKinds[kind] {
-					if st := segStart(rep.Layout, dir, off); st >= 0 {
-						switch (off - st) % 16 {
-						case 0:
-							run["80"] = true
-						case 15:
-							run["01"] = true
-						}
+				if labelKinds[kind] && st >= 0 {
+					switch (off - st) % 16 {
+					case 0:
+						run["80"] = true
+					case 15:
+						run["01"] = true
 					}
+				}
+				// Streaming: the wire id the evaluator returns for a result
+				// bit (low byte of each 4-byte id).
+				if wide && kind == "return-ids" && st >= 0 && (off-st)%4 == 3 {
+					run["01"] = true
 				}
 				for _, m := range masks {
 					if run[m] {
@@ -602,6 +774,76 @@ func TestEnumerate(t *testing.T) {
 		return run(cs)
 	})
 	finish()
+}
+
+// isWideSession tells whether an enumerated session has results (or inputs)
+// wider than 64 bits.  Its transcripts are long: the enumeration covers every
+// offset, but with all 13 masks only on the first and last byte of every
+// label and on the small header-like message kinds (see wideMasks).
+func isWideSession(s Session) bool {
+	return isWideProg(s.Prog) || circName(s) == "widemix"
+}
+
+// smallKinds are the message kinds of a few bytes per session.
+var smallKinds = map[string]bool{"key-len": true, "key": true, "ot-range": true, "result": true,
+	"input-sizes": true, "op-result": true, "header-len": true, "header-text": true,
+	"evalarg-len": true, "evalarg-text": true, "circ-header": true, "op": true, "return-ids": true}
+
+// wideMasks thins the 13 masks of an offset of a wide session.
+func wideMasks(masks []string, kind string, dir, off, st int, seed uint64) []string {
+	h := caseHash(int64(seed)+int64(dir), off)
+	pick := func(k int) []string {
+		var r []string
+		for i := 0; i < k; i++ {
+			m := masks[(h>>uint(8*i))%uint64(len(masks))]
+			if !contains(r, m) {
+				r = append(r, m)
+			}
+		}
+		return r
+	}
+	switch {
+	case smallKinds[kind]:
+		return masks
+	case labelKinds[kind] && st >= 0:
+		pos := (off - st) % 16
+		switch {
+		case kind == "output-labels" && (pos == 0 || pos == 15):
+			return masks
+		case kind == "output-labels":
+			return pick(2)
+		case pos == 0:
+			return append([]string{"80", "ff"}, masks[9])
+		case pos == 15:
+			return append([]string{"01", "ff"}, masks[10])
+		case pos == 1+int(caseHash(int64(seed), off-pos)%14):
+			return pick(1)
+		}
+		return nil
+	}
+	return pick(1)
+}
+
+// checkWide verifies the premises of a wide enumerated session: more than 64
+// result bits, and the reference result has 1 bits and 0 bits at indices >= 64.
+func checkWide(s Session, rep Reply) error {
+	if rep.NOut <= 64 {
+		return fmt.Errorf("wide session has only %d result bits", rep.NOut)
+	}
+	ones, zeros := 0, 0
+	for i, b := range rep.WantBits {
+		if i >= 64 {
+			if b == '1' {
+				ones++
+			} else {
+				zeros++
+			}
+		}
+	}
+	if ones < 4 || zeros < 4 {
+		return fmt.Errorf("reference result has %d one bits and %d zero bits at indices >= 64 (want >= 4 of each)", ones, zeros)
+	}
+	return nil
 }
 
 func circName(s Session) string {
